@@ -831,6 +831,18 @@ func (w *World) doRawRequest(actor string, idx int, op *Op) {
 		finish()
 		return
 	}
+	if len(op.Parts) > 0 {
+		parts, gap := op.Parts, op.PartGap
+		go func() { // the body trickles in while the response side is read below
+			for i, part := range parts {
+				w.S.Sleep(gap)
+				if _, err := c.Write([]byte(part)); err != nil {
+					return
+				}
+				w.H.Add(Event{Kind: "req.part", Req: rid, N: len(part), Op: i})
+			}
+		}()
+	}
 	if op.AbortAfter > 0 {
 		tm := w.S.AfterFunc(op.AbortAfter, func() {
 			w.H.Add(Event{Kind: "req.abort", Req: rid})
